@@ -2,7 +2,7 @@
 from vlib.framework import PUnit, LUnit, BUnit
 from contracts import linalg as L
 from contracts import random_walk as W
-from bounded import b_coords
+from bounded import b_coords, engine_histories
 
 
 def build(tier, seed):
@@ -13,5 +13,6 @@ def build(tier, seed):
         LUnit("unit-step-norm", L.lemma_unit_step_norm),
         PUnit("take-step", [W.TAKE_STEP], W.REG5),
         PUnit("update-positions", [W.UPDATE_BODY], W.REG5),
+        BUnit("engine-histories-overlap-floor", engine_histories.run),
     ] + [u for u in b_coords.UNITS if u.name == "c05-steps-box-overlap"]
     return {"units": units, "level": "other", "notes": "pyvc"}
